@@ -248,7 +248,9 @@ func evalLine(l, tag string) felt.Felt {
 }
 
 func askBlock(or *hx.Oracle, b *core.Block, d *core.StateDiff) modelHashes {
+	orMu.Lock()
 	rep := or.AskUntil(blockLine(b, d), "end")
+	orMu.Unlock()
 	if len(rep) != 8 {
 		hx.Fatalf("oracle block reply has %d lines", len(rep))
 	}
@@ -272,7 +274,9 @@ func askTxHash(or *hx.Oracle, tx core.Transaction) (felt.Felt, bool) {
 	if strings.HasPrefix(spec, "unv|") {
 		return *tx.Hash(), true // hash not recomputed by juno: the declared one stands (model: Unverified)
 	}
+	orMu.Lock()
 	rep := or.AskUntil("tx "+network.L2ChainIDFelt().Text(16)+" "+spec, "end")
+	orMu.Unlock()
 	return evalLine(rep[0], "hash"), true
 }
 
